@@ -12,7 +12,12 @@ git -C /repo worktree add -q $WT HEAD || exit 2
 cd $WT
 DEMOFLAGS=""; grep -q "race" $DST/README.md 2>/dev/null && [ "$ID" = C08 ] && DEMOFLAGS="-race"
 cp $DST/demo_test.go . ; base_demo=$(go test $DEMOFLAGS -vet=off -count=1 -run TestSeededDemo . 2>&1 | tail -1); rm demo_test.go
-applies=no; git apply $DST/patch.diff && applies=yes
+applies=no
+if git apply $DST/patch.diff 2>/dev/null; then applies=yes
+elif patch -p1 --fuzz=3 -s < $DST/patch.diff; then
+  # the tree moved since the change was written (later fix: commits): store the rebased patch
+  applies="yes (rebased onto $(git -C /repo rev-parse --short HEAD))"; rm -f *.orig; git diff -- '*.go' > $DST/patch.diff
+else echo "PATCH DOES NOT APPLY"; cd /; git -C /repo worktree remove --force $WT; exit 2; fi
 builds=no; go build ./... 2>/dev/null && builds=yes
 suite=$(go test -vet=off -count=1 -timeout 20m . 2>&1 | grep -E "^(ok|FAIL|---)" | tr '\n' ' ')
 cp $DST/demo_test.go . ; mut_demo=$(go test $DEMOFLAGS -vet=off -count=1 -run TestSeededDemo . 2>&1 | grep -E "^(ok|FAIL|--- FAIL)" | head -2 | tr '\n' ' '); rm demo_test.go
@@ -29,7 +34,7 @@ python3 - "$ID" "$applies" "$builds" "$suite" "$base_demo" "$mut_demo" "[${resul
 import sys,json
 ID,applies,builds,suite,base,mut,res=sys.argv[1:8]
 meta={"breaks_property":ID,"source":"fresh sub-agent given only the property text and a scratch worktree",
- "needs_to_manifest":"see README.md",
+ "needs_to_manifest":json.load(open("/verif/seeded/summaries.json")).get(ID,"see README.md"),
  "confirmed":{"patch_applies":applies,"builds":builds,"existing_suite_with_change":suite.strip(),
    "demo_on_unchanged_sources":base.strip(),"demo_with_change":mut.strip()},
  "checks_run":json.loads(res),"commands":"sim/tools/seeded.sh "+ID}
